@@ -572,6 +572,8 @@ class PyRFloat(RFloat):
 
     __slots__ = ()
     __hash__ = None
+    # `isinstance(x, float)` holds for a Python float (isinstance falls back on __class__); type(x) stays PyRFloat
+    __class__ = property(lambda self: float)
 
     @staticmethod
     def of(x):
